@@ -50,7 +50,7 @@ fn gen_cfg(t: &mut Tape) -> Cfg {
 
 pub fn identities() -> Vec<Vec<String>> {
     let v = |a: &[&str]| a.iter().map(|s| s.to_string()).collect::<Vec<_>>();
-    vec![v(&["git", "diff"]), v(&["git", "diff"]), v(&["git", "grep", "-n", "x"]), v(&["git", "blame", "src/main.rs"])]
+    vec![v(&["git", "diff"]), v(&["git", "diff"]), v(&["git", "grep", "-n", "x"]), v(&["git", "blame", "src/main.rs"]), v(&["git", "diff"]), v(&["git", "diff", "@pty"]), v(&["git", "grep", "-n", "x"]), v(&["git", "blame", "src/main.rs", "@pty"])]
 }
 
 /// moved-line colourings: balanced, set-only SGR segments as git emits them
@@ -209,6 +209,11 @@ impl Prop for C09 {
                 (other::grep_stream(t), "grep")
             }
         } else if is_blame {
+            // formats that cut fields (a precision keeps the first N characters): what is cut may
+            // be text wrapped in a commit hyperlink
+            if t.coin() {
+                cfg.set("blame-format", t.ps(&["{commit:<8.7} {author:<10.9} {timestamp:>14}", "{timestamp:<15.10} {author:.4} {commit:.3}", "{commit:^12.6}│{author:>8.2}", "{author:<15.14} {commit:<8}"]));
+            }
             (other::blame_stream(t), "blame")
         } else if t.chance(1, 5) {
             // passed-through program output, cut at a small maximum line length
@@ -259,7 +264,7 @@ impl Prop for C09 {
                 ctx.sample(json!({"kind": kind, "identity": ident, "argv": cfg.base_args().iter().filter(|a| !a.contains("-style=")).collect::<Vec<_>>(), "input": exec::printable(&input[..input.len().min(800)]), "output": exec::printable(&out[..out.len().min(800)])}));
             }
         }
-        if ctx.want_xcheck() && cfg.gitconfig.is_none() && cfg.env.current_dir.is_none() {
+        if ctx.want_xcheck() && !crate::runner::identity_wants_tty(&ctx.identity) && cfg.gitconfig.is_none() && cfg.env.current_dir.is_none() {
             ctx.xchecks.push(json!({"argv": cfg.args(None), "env": exec::env_from_spec(&cfg.env), "cwd": cfg.env.current_dir,
                 "identity": ctx.identity, "input_hex": exec::hex(&input), "out_hash": format!("{:016x}", fnv(&out))}));
         }
